@@ -638,7 +638,7 @@ class Tr:
                 pre, cond, body = [], c["a"][0], c["a"][1]
             if has_return(body):
                 raise Unsupported("return inside a loop")
-            names = sorted(n for n in (self.assigned(body) | self.assigned(cond)) if n in env)
+            names = self.order_names([n for n in (self.assigned(body) | self.assigned(cond)) if n in env], env)
             benv, bst = dict(env), [self.fresh("s")]
             for n in names:
                 benv[n] = (self.fresh("v_" + n + "_"), env[n][1])
@@ -812,6 +812,11 @@ class Tr:
                 return bo + b + self.set_elem_field(to, lhs["n"], val, st)
             raise Unsupported("assignment to %s" % show(lhs))
         raise Unsupported("statement %s" % show(c)[:200])
+
+    def order_names(self, names, env):
+        """the order of the loop-carried locals in the accumulator of a while/for loop (a family module may
+        prefer declaration order, which does not change when a local is renamed)"""
+        return sorted(names)
 
     def loop_fuel(self, s):
         """an upper bound on the iterations of any loop of the class, as a Gallina term over the state"""
